@@ -39,10 +39,14 @@ def confirm(wid, name):
     assert any(l.startswith(" M") for l in st.splitlines()), f"change not applied in {wt}: {st}"
     r = sh(demo_cmd, cwd=wt, timeout=1800)
     res["demo_fails_with_change"] = r.returncode != 0
-    sh("git stash", cwd=wt)
+    # flip with the recorded patch (git stash is shared between worktrees: not safe in parallel)
+    patch = f"{dst}/patch.diff"
+    assert sh(f"git apply -R --check {patch}", cwd=wt).returncode == 0, "worktree does not contain exactly the recorded patch"
+    sh(f"git apply -R {patch}", cwd=wt)
+    assert not any(l.startswith(" M") for l in sh("git status --porcelain", cwd=wt).stdout.splitlines()), "source still modified after reverting the patch"
     r = sh(demo_cmd, cwd=wt, timeout=1800)
     res["demo_passes_without_change"] = r.returncode == 0
-    sh("git stash pop", cwd=wt)
+    sh(f"git apply {patch}", cwd=wt)
     # existing suite with the change, demo moved aside
     untracked = [l[3:] for l in sh("git status --porcelain", cwd=wt).stdout.splitlines() if l.startswith("??") and l[3:].endswith(".rs")]
     aside = []
